@@ -54,3 +54,32 @@ func Copy(blob []byte, mine *blockMap) error {
 	}
 	return nil
 }
+
+func content(raw []byte) ([]byte, error) {
+	if len(raw) < 2 {
+		// nothing there: not an error
+		return nil, nil
+	}
+	if raw[0] != 0x30 {
+		return nil, xml.UnmarshalError("not a sequence")
+	}
+	return raw[2:], nil
+}
+
+// Tag is the positive control of R11l: the error is tested, the length is not.
+func Tag(raw []byte) (byte, error) {
+	body, err := content(raw)
+	if err != nil {
+		return 0, err
+	}
+	return body[0], nil
+}
+
+// First is the positive control of R11m: the first block of the first file of a decoded map.
+func First(blob []byte) (uint64, error) {
+	var m blockMap
+	if err := xml.Unmarshal(blob, &m); err != nil {
+		return 0, err
+	}
+	return m.File[0].Block[0].Size, nil
+}
